@@ -1655,6 +1655,14 @@ func c22PrefixRules(c *engine.Ctx, p *engine.Prog) {
 					if !ft.val && hasPrefix(ft.ctx, ft.e) {
 						ok = true
 					}
+					// De Morgan form: !(Valid() && HasPrefix(…)), possibly behind a boolean helper
+					if !ft.val && isB && b.Op == token.LAND {
+						for _, cj := range engine.Conjuncts(b, token.LAND) {
+							if hasPrefix(ft.ctx, cj) {
+								ok = true
+							}
+						}
+					}
 				}
 			} else if sfAllLeafs(sfLeafs(root, as.Rhs[0], st, 3, nil), func(l sfLeaf) bool {
 				if l.e == nil {
